@@ -1065,6 +1065,32 @@ impl Kernel {
         pid
     }
 
+    /// A scripted process attached directly to the given descriptions (no
+    /// fork/exec through the library): used by the thread-communicator family.
+    pub fn spawn_script(&mut self, prog: Vec<crate::prog::Op>, fds: [Option<usize>; 3]) -> i32 {
+        let pid = self.alloc_pid();
+        let idx = self.n_spawned;
+        self.n_spawned += 1;
+        let mut p = Proc::blank(pid, PARENT_PID, PKind::Child(idx));
+        let boot: Vec<usize> = (0..3).map(|i| self.proc(PARENT_PID).fds[&i].desc).collect();
+        for i in 0..3 {
+            let d = fds[i].unwrap_or(boot[i]);
+            p.fds.insert(i as i32, FdEnt { desc: d, cloexec: false });
+        }
+        let descs: Vec<usize> = p.fds.values().map(|e| e.desc).collect();
+        p.exec_fds = p.fds.iter().map(|(fd, e)| (*fd, e.desc)).collect();
+        p.prog = prog;
+        p.state = PState::Running;
+        p.exec = Some(ExecRecord { path: b"(direct)".to_vec(), resolved: b"(direct)".to_vec(), argv: vec![], envp_explicit: false, env: vec![] });
+        p.exec_sigpipe = Some(Disp::Default);
+        for d in descs {
+            self.incref(d);
+        }
+        self.procs.insert(pid, p);
+        self.touch();
+        pid
+    }
+
     /// exec bookkeeping: close cloexec descriptors, reset handlers.
     pub fn do_exec(&mut self, pid: i32, rec: ExecRecord, prog: Option<usize>) {
         let cl: Vec<i32> = self.proc(pid).fds.iter().filter(|(_, e)| e.cloexec).map(|(fd, _)| *fd).collect();
